@@ -30,7 +30,8 @@ enum { KEEP_IF_SAME = 1,   // the command leaves an output whose content would n
        EXPECT_CYCLE = 8,
        NONCANONICAL_DEPFILE = 16,
        REGEN_MANIFEST = 32,
-       RUNS_RESTAT_TOOL = 64 };     // the command runs `ninja -t restat` in the build directory when it is done (as CMake's regeneration step does)       // the statement regenerates build.ninja from configure.in (each edit of configure.in selects the next manifest variant)  // the command spells the extra files it read as ./name in its depfile (compilers do, for -I. includes)  // by the manifest text this statement lies on a dependency cycle (expectation independent of ninja's own parse)
+       RUNS_RESTAT_TOOL = 64,
+       REMOVES_EMPTY_DIRS = 128 };   // the command prunes every directory that holds no file (a packaging / tidy-up step: find -type d -empty -delete)     // the command runs `ninja -t restat` in the build directory when it is done (as CMake's regeneration step does)       // the statement regenerates build.ninja from configure.in (each edit of configure.in selects the next manifest variant)  // the command spells the extra files it read as ./name in its depfile (compilers do, for -I. includes)  // by the manifest text this statement lies on a dependency cycle (expectation independent of ninja's own parse)
 struct CmdSpec {
   const char* out;            // first output of the statement this entry describes
   const char* extra_reads;    // files the command reads beyond its declared explicit/implicit inputs; it reports them (depfile / deps / dyndep)
@@ -76,12 +77,15 @@ static const std::string* g_depfile_override;    // when set: the bytes every co
 static bool g_mkdir_may_fail;          // directory creation may fail (permissions, a file in the way)
 static bool g_midrun_edit_done;        // at most one source is edited while a command runs, per history
 static bool g_dead;                    // the simulated process has died: nothing ninja does persists any more (C07)
+static bool g_stat_may_fail, g_stat_failed, g_commands_started;   // fault injection for DiskInterface::Stat during the build
 static void persistence_event() { if (verif_vfs_event()) g_dead = true; }     // one event counter for DiskInterface and stdio/unistd mutations
 
 struct SymDisk : public DiskInterface {
   mutable int stats; int stat_fail_at; SymDisk() : stats(0), stat_fail_at(-1) {}
   TimeStamp Stat(const std::string& path, std::string* err) const override {
     stats++;
+    // an I/O error on stat() once commands are running (at most one per invocation): ninja has to give up in an orderly way
+    if (g_stat_may_fail && g_commands_started && !g_stat_failed && verif_bool("stat_fails")) { g_stat_failed = true; if (err) *err = "stat(" + path + "): Input/output error"; return -1; }
     VFile* f = g_tree->find(path);
     if (!f || !f->exists) return 0;
     return f->mtime;
@@ -274,6 +278,7 @@ struct SymRunner : public CommandRunner {
     std::string rsp = e->GetUnescapedRspfile();
     if (!rsp.empty()) { VFile* f = g_tree->find(rsp); VERIF_ASSERT(f && f->exists && f->is_text && f->text == e->GetBinding("rspfile_content"), "C16: the response file holds exactly the evaluated rspfile_content when the command starts"); }
     r.stdout_len_at_start = opt.prints_output ? verif_stdout_len() : 0;
+    g_commands_started = true;
     active.push_back(r); started.push_back(edge_ordinal(e)); events.push_back("start " + e->outputs_[0]->path());
     if ((int)active.size() > max_running) max_running = (int)active.size();
     return true;
@@ -338,6 +343,9 @@ struct SymRunner : public CommandRunner {
     }
     if (r.flags & REGEN_MANIFEST) g_manifest_variant = regen_variant();       // the generator has rewritten build.ninja from configure.in
     if (r.flags & RUNS_RESTAT_TOOL) run_restat_tool_from_command();
+    if (r.flags & REMOVES_EMPTY_DIRS) { std::vector<std::string> keep; for (size_t d = 0; d < g_tree->dirs.size(); d++) { bool used = false; const std::string pre = g_tree->dirs[d] + "/";
+        for (size_t q = 0; q < g_tree->files.size(); q++) used = used || (g_tree->files[q].exists && g_tree->files[q].name.compare(0, pre.size(), pre) == 0);
+        if (used) keep.push_back(g_tree->dirs[d]); else events.push_back("rmdir " + g_tree->dirs[d]); } g_tree->dirs = keep; }
     std::vector<std::string> reads = read_set(e);
     std::string dep = e->GetUnescapedDepfile();
     if (!dep.empty()) { std::string t = e->outputs_[0]->path() + ":"; size_t nd = reads.size(); for (size_t z = 0; z < g_ref.size(); z++) if (g_ref[z].ordinal == ord) nd = g_ref[z].ndeclared;
@@ -398,6 +406,7 @@ static InvocationResult invoke(const InvocationOpts& o) {
   InvocationResult res;
   // every ninja invocation is a new process: the process-wide pool objects start out empty
   State::kDefaultPool.current_use_ = 0; State::kDefaultPool.delayed_.clear();
+  g_stat_failed = false; g_commands_started = false;
   State::kConsolePool.current_use_ = 0; State::kConsolePool.delayed_.clear();
   State* state = new State; SymDisk* disk = new SymDisk; RecStatus* status = new RecStatus; BuildConfig* config = new BuildConfig;
   config->verbosity = o.real_status ? BuildConfig::NORMAL : BuildConfig::QUIET;
